@@ -353,6 +353,9 @@ func judgeExpectedHits(r *Run, j *Judged, cl []*cls, by map[int]*OResp) {
 			if !storableForSure(body) && !r.wasStored(body) {
 				continue
 			}
+			if !r.chainExact(body, x) {
+				continue // overlapping validations: which 304 the stored header fields come from is a race
+			}
 			hdr, _ = r.effectiveStored(body, x.SeqInv)
 		} else if !storableForSure(L) && !r.wasStored(L) {
 			continue
